@@ -32,9 +32,11 @@ REFUTED = [
     "C05_protected_descendant_partial_effect (a protected descendant refuses the request half-way; open finding)",
 ]
 PARTIAL = [
-    "C05_no_dangling_partial / C05_no_dangling_iff (pinned loop: exact side condition no_skip)",
-    "C05_ws_removal_file_exact (file level only for removal through the workspace; removal through the parent is refuted)",
-    "C05_survivors_removal_total (copy of a survivor is compared with the code, not proved)",
+    "C05_no_dangling_partial / C05_no_dangling_iff / C05_stored_groups_no_dangling (pinned loop: exact side condition no_skip)",
+    "C05_ws_removal_file_exact / C05_visible_links_clean (file level only for removal through the workspace; through the parent: "
+    "C05_parent_link_removed + C05_removed_not_yielded hold, the nodes stay: C05_file_exact_via_parent_refuted, C05_via_parent_what_remains)",
+    "C05_survivors_removal_total (further removals proved; copy of a survivor is not an operation of the model: copy_ok is compared "
+    "with the code on every case; missing for a theorem: members-of-groups-are-children and links-mirror-children invariants)",
 ]
 TRUSTED = [
     "Coq 8.16.1 kernel + vm_compute (correspondence evaluation, refutation witnesses); no axioms",
@@ -61,13 +63,15 @@ RULE = (
 )
 LEVEL_TEXT = (
     "Proved in Coq for all histories of create/add-data/property-group/allow_delete/remove (both entry points)/drop/listing/lookup "
-    "operations: well-formedness invariant of reachable states; ws.remove_entity prunes exactly the subtree at tree level and "
-    "(repaired remove_recursively) deletes exactly the subtree's nodes from the flat containers; after a data removal no property "
-    "group lists it (snapshot loop), with the exact condition no_skip for the pinned loop (iff); refusal changes nothing; further "
-    "removals on survivors always end Ok/Refused. Refuted with witnesses replayed on the code: pinned group loop, pre-repair "
-    "children loop, removal through the parent leaving flat nodes (open), refusal half-way on a protected descendant (open). "
-    "Tie: loop headers read from the ast + behavioural probe on every run, and correspondence of per-operation memory/registry/"
-    "raw-HDF5 observations, the state after close/re-open and copy outcomes on generated histories."
+    "operations: well-formedness invariants of reachable states (tree, property groups, child links, stored PropertyGroups blocks "
+    "mirror memory); ws.remove_entity prunes exactly the subtree at tree level and (repaired remove_recursively) deletes exactly the "
+    "subtree's nodes, and no surviving node links a removed one; after either entry point nothing of the removed subtree is attached, "
+    "and after the caller dropped its references no listing and no look-up yields it; after a data removal no property group in memory "
+    "and no stored block lists it (snapshot loop; exact condition no_skip for the pinned loop, iff); refusal changes nothing; further "
+    "removals on survivors always end Ok/Refused. Refuted with witnesses replayed on the code: pinned group loop, pre-repair children "
+    "loop, removal through the parent leaving flat nodes (open), refusal half-way on a protected descendant (open). Oracle-only: "
+    "concatenated drillholes, copy of survivors. Tie: loop headers read from the ast + behavioural probe on every run, and correspondence "
+    "of per-operation memory/registry/raw-HDF5 observations, the state after close/re-open and copy outcomes on generated histories."
 )
 TECHNIQUE = "Coq model of removal with explicit iteration-under-mutation semantics + invariant proofs + differential histories"
 
